@@ -21,7 +21,8 @@ GREP_MODULES = ['Ladybug.Py', 'Ladybug.DrvCore', 'Ladybug.Model.Dome', 'Ladybug.
 RULE = ('correspondence: division counts 1..6 (thorough 1..8) x subdivide_in_place, malformed counts 0/-1, '
         'azimuth/altitude counts from {1,2,3,18,72,144} and random 1..144, offset angles 0..90 incl. the '
         'half-row rounding boundaries, nan/inf/negative offsets, every read order of the two solid-angle '
-        'tables up to length 4, projections of points on spheres of random radius/origin incl. horizon and '
+        'tables up to length 4, all ordered pairs + random sequences + full permutations of the eleven lazy '
+        'tregenza_*/reinhart_* properties on fresh objects and on a fresh module singleton, projections of points on spheres of random radius/origin incl. horizon and '
         'zenith; integer structure compared exactly, projections bit-exact, weights within 1e-12 relative. '
         'oracle: the statement evaluated on the real meshes/vectors/weights (true solid angle of every generated '
         'face from its own vertices). A case is non-trivial when the implementation returns a value; distinct = '
@@ -81,6 +82,92 @@ def _weights_take_flag():
                    for f in ('dome_patch_weights', 'sphere_patch_weights', 'horizontal_radial_patch_weights'))
     except (TypeError, ValueError, AttributeError):
         return False
+
+
+LAZY_PROPS = ['tregenza_dome_vectors', 'tregenza_sphere_vectors', 'tregenza_dome_mesh',
+              'tregenza_dome_mesh_high_res', 'tregenza_sphere_mesh', 'tregenza_solid_angles',
+              'reinhart_dome_vectors', 'reinhart_sphere_vectors', 'reinhart_dome_mesh',
+              'reinhart_sphere_mesh', 'reinhart_solid_angles']
+_REFS = {}
+
+
+def _vec_key(vecs):
+    return tuple((v.x, v.y, v.z) for v in vecs)
+
+
+def _mesh_key(m):
+    return (tuple((q.x, q.y, q.z) for q in m.vertices), tuple(tuple(f) for f in m.faces))
+
+
+def _refs():
+    """Reference contents built with the plain functions dome_patches / sphere_patches on a throw-away
+    object (they do not touch any cache slot): {(kind, n, in_place): key}."""
+    if not _REFS:
+        from ladybug.viewsphere import ViewSphere
+        vs = ViewSphere()
+        for n, ip in ((1, False), (2, False), (3, True), (3, False), (2, True)):
+            m, v = vs.dome_patches(n, ip)
+            _REFS[('dome_mesh', n, ip)] = _mesh_key(m)
+            _REFS[('dome_vectors', n, ip)] = _vec_key(v)
+        for n in (1, 2):
+            m, v = vs.sphere_patches(n)
+            _REFS[('sphere_mesh', n, False)] = _mesh_key(m)
+            _REFS[('sphere_vectors', n, False)] = _vec_key(v)
+        for n, rows, coef in ((1, ViewSphere.TREGENZA_PATCHES_PER_ROW, ViewSphere.TREGENZA_COEFFICIENTS),
+                              (2, ViewSphere.REINHART_PATCHES_PER_ROW, ViewSphere.REINHART_COEFFICIENTS)):
+            t = []
+            for a, c in zip(coef, tuple(rows) + (1,)):
+                t += [a] * c
+            _REFS[('solid_angles', n, False)] = tuple(t)
+    return _REFS
+
+
+def _fingerprint(obj):
+    """`<kind>:<n>:<in_place>:<count>` of what a lazy property returned, by comparing it with the reference
+    contents; `unknown_*:<count>` when it is none of them."""
+    if obj is None:
+        return 'none'
+    if hasattr(obj, 'faces') and hasattr(obj, 'vertices'):
+        key, kinds, count = _mesh_key(obj), ('dome_mesh', 'sphere_mesh'), len(obj.faces)
+    elif isinstance(obj, (tuple, list)) and obj and hasattr(obj[0], 'z'):
+        key, kinds, count = _vec_key(obj), ('dome_vectors', 'sphere_vectors'), len(obj)
+    elif isinstance(obj, (tuple, list)):
+        key, kinds, count = tuple(obj), ('solid_angles',), len(obj)
+    else:
+        return 'unknown_object:' + type(obj).__name__
+    for (kind, n, ip), ref in _refs().items():
+        if kind in kinds and ref == key:
+            return '%s:%d:%s:%d' % (kind, n, _b(ip), count)
+    return 'unknown_%s:%d' % (kinds[0], count)
+
+
+def _lazy_object(singleton):
+    """A fresh ViewSphere, or the module-level singleton `view_sphere` of a freshly executed private copy of
+    the module (so that the singleton starts with empty slots without reloading ladybug.viewsphere)."""
+    import ladybug.viewsphere as lv
+    if not singleton:
+        return lv.ViewSphere(), lv.ViewSphere
+    import importlib.util
+    spec = importlib.util.spec_from_file_location('_c20_viewsphere_copy', lv.__file__)
+    mod = importlib.util.module_from_spec(spec)
+    spec.loader.exec_module(mod)
+    return mod.view_sphere, mod.ViewSphere
+
+
+def _lazy_sequences(ctx, rng, pairs):
+    """Read orders: all ordered pairs (incl. repeated reads), random longer sequences, permutations of all
+    eleven properties on the singleton."""
+    out = []
+    if pairs:
+        out += [{'order': [a, b], 'singleton': False} for a in LAZY_PROPS for b in LAZY_PROPS]
+    for _ in range(ctx.n(10, 150)):
+        k = rng.randrange(3, 9)
+        out.append({'order': [rng.choice(LAZY_PROPS) for _ in range(k)], 'singleton': rng.random() < 0.3})
+    for _ in range(ctx.n(4, 40)):
+        perm = list(LAZY_PROPS)
+        rng.shuffle(perm)
+        out.append({'order': perm, 'singleton': True})
+    return out
 
 
 # ---------------------------------------------------------------------------------------------
@@ -280,6 +367,19 @@ def correspondence(ctx):
                                 for b in seq)
     compare_batch(ctx, 'sa_reads', seqs, lambda s: 'sa_reads ' + ' '.join(str(b) for b in s), impl_reads,
                   key=lambda s: tuple(s))
+
+    # --- all lazily built properties: read orders on fresh objects and on the (fresh) module singleton
+    lz = [{'order': ['tregenza_dome_mesh_high_res', 'tregenza_dome_vectors'], 'singleton': True}]
+    lz += _lazy_sequences(ctx, rng, pairs=True)
+    for c in lz:
+        ctx.count('lazy_reads:singleton' if c['singleton'] else 'lazy_reads:fresh_object')
+        ctx.count('lazy_reads:length_%s' % (len(c['order']) if len(c['order']) < 3 else '3+'))
+
+    def impl_lazy(c):
+        o, _ = _lazy_object(c['singleton'])
+        return 'ok ' + ' '.join(_fingerprint(getattr(o, name)) for name in c['order'])
+    compare_batch(ctx, 'lazy_reads', lz, lambda c: 'lazy_reads ' + ' '.join(c['order']), impl_lazy,
+                  key=lambda c: (c['singleton'], tuple(c['order'])))
 
     # --- projections (bit-exact)
     pts = list(_proj_points(rng, ctx.n(3000, 40000)))
@@ -574,6 +674,69 @@ def check_case(op, inp):
                 return bad('table_sum', TWO_PI, sum(got[b]), **base)
         return None
 
+    if op == 'lazy':
+        order, singleton = inp['order'], bool(inp.get('singleton'))
+        o, cls = _lazy_object(singleton)
+        plain = cls()        # the plain functions on another object: what the properties must agree with
+        n_of = {'tregenza': 1, 'reinhart': 2}
+
+        def required(name):
+            fam, rest = name.split('_', 1)
+            n = n_of[fam]
+            pc = 144 * n * n + 1
+            if rest == 'dome_vectors':
+                return pc, _vec_key(plain.dome_patches(n)[1])
+            if rest == 'sphere_vectors':
+                return 2 * pc, _vec_key(plain.sphere_patches(n)[1])
+            if rest == 'dome_mesh':
+                return pc - 1 + 6 * n, _mesh_key(plain.dome_patches(n)[0])
+            if rest == 'dome_mesh_high_res':      # 3 x 3 quads per patch, 18 triangles for the zenith patch
+                return 144 * 9 + 18, _mesh_key(plain.dome_patches(3, True)[0])
+            if rest == 'sphere_mesh':
+                return 2 * (pc - 1 + 6 * n), _mesh_key(plain.sphere_patches(n)[0])
+            return pc, None                        # solid angles: one per vector
+
+        def observe(name, before):
+            val = getattr(o, name)
+            count, ref = required(name)
+            base = {'property': name, 'singleton': singleton}
+            if val is None:
+                return bad('lazy_property', '%s with %d entries' % (name, count), 'None', **base)
+            got = len(val.faces) if hasattr(val, 'faces') else len(val)
+            if got != count:
+                return bad('lazy_property', '%s has %d entries' % (name, count),
+                           '%d entries after reading %s' % (got, before or 'nothing'), **base)
+            if ref is not None:
+                key = _mesh_key(val) if hasattr(val, 'faces') else _vec_key(val)
+                if key != ref:
+                    return bad('lazy_property', '%s equals the result of the plain function' % name,
+                               'different content after reading %s' % (before or 'nothing'), **base)
+            return None
+        seen = []
+        for name in order:
+            res = observe(name, seen)
+            if res:
+                return res
+            seen.append(name)
+        # afterwards: vectors, mesh, tabulated solid angles and weights of each family align one-to-one
+        for fam, n in sorted(n_of.items()):
+            for name in (fam + '_dome_vectors', fam + '_dome_mesh', fam + '_solid_angles'):
+                res = observe(name, seen)
+                if res:
+                    return res
+            vecs, mesh = getattr(o, fam + '_dome_vectors'), getattr(o, fam + '_dome_mesh')
+            sa, ws = getattr(o, fam + '_solid_angles'), o.dome_patch_weights(n)
+            base = {'property': fam + '_dome_vectors', 'singleton': singleton}
+            if not (len(vecs) == len(sa) == len(ws)):
+                return bad('lazy_aligned', 'one vector per solid angle and weight',
+                           (len(vecs), len(sa), len(ws)), **base)
+            normals = mesh.face_normals
+            for i in range(len(vecs) - 1):
+                if (vecs[i].x, vecs[i].y, vecs[i].z) != (normals[i].x, normals[i].y, normals[i].z):
+                    return bad('lazy_aligned', 'vector %d is the normal of patch %d of the mesh' % (i, i),
+                               'differs after reading %s' % seen, **base)
+        return None
+
     if op in ('proj', 'sun2d'):
         r = inp['r']
         if op == 'proj':
@@ -636,6 +799,12 @@ def _oracle_cases(ctx):
     yield 'tables', {'order': [1]}
     yield 'dome', {'n': 2, 'in_place': False}
     yield 'offset', {'offset_angle': 45, 'n': 2, 'in_place': True}
+    yield 'lazy', {'order': ['tregenza_dome_mesh_high_res', 'tregenza_dome_vectors'], 'singleton': True}
+    yield 'lazy', {'order': ['tregenza_dome_vectors', 'tregenza_dome_mesh_high_res'], 'singleton': False}
+    yield 'lazy', {'order': ['reinhart_sphere_mesh', 'reinhart_dome_vectors', 'tregenza_sphere_vectors'],
+                   'singleton': False}
+    for c in _lazy_sequences(ctx, rng, pairs=big):
+        yield 'lazy', c
     top = 8 if big else 6
     for n in range(1, top + 1):
         for ip in (False, True):
